@@ -37,10 +37,16 @@ func runSolver(sc SolverCfg, file string, timeoutS int) (string, string, float64
 	_ = cmd.Run()
 	el := time.Since(t0).Seconds()
 	o := out.String()
-	first := strings.TrimSpace(strings.SplitN(o, "\n", 2)[0])
-	switch first {
-	case "sat", "unsat", "unknown":
-		return first, o, el
+	for _, ln := range strings.Split(o, "\n") {
+		ln = strings.TrimSpace(ln)
+		if ln == "" || strings.HasPrefix(ln, "WARNING") || strings.HasPrefix(ln, ";") {
+			continue
+		}
+		switch ln {
+		case "sat", "unsat", "unknown":
+			return ln, o, el
+		}
+		break
 	}
 	if strings.Contains(o, "timeout") {
 		return "timeout", o, el
